@@ -1438,6 +1438,10 @@ static void do_kdecomp(CMR* cmr)
     }
     CMRsepaFree(cmr, &swappedSepa);
   }
+  /* 3-sums (concentrated rank): the connecting path search succeeded; for a 3-connected matrix (generator's flag) the
+   * components are minors up to signs the decomposition chooses, so they inherit total unimodularity. */
+  if (ok == 1 && kind == 5 && threeConnected)
+    both = 1;
   if (ok == 1 && nullmask)
     ok = 3;
   rec_begin();
